@@ -15,6 +15,9 @@ pub struct ChunkWriter {
     pub turn: usize,
     pub fail_at: Option<usize>,
     pub flush_fails: bool,
+    /// at the failure point report "no room" as `Ok(0)` (what `&mut [u8]` and `Cursor<&mut [u8]>` do)
+    /// instead of an `Err`
+    pub zero_at_fail: bool,
 }
 impl Write for ChunkWriter {
     fn write(&mut self, buf: &[u8]) -> std::io::Result<usize> {
@@ -22,6 +25,9 @@ impl Write for ChunkWriter {
         self.turn += 1;
         if let Some(k) = self.fail_at {
             if self.accepted.len() >= k {
+                if self.zero_at_fail {
+                    return Ok(0);
+                }
                 return Err(std::io::Error::new(std::io::ErrorKind::Other, "injected"));
             }
             n = n.min(k - self.accepted.len());
@@ -85,7 +91,7 @@ fn check_writer(o: &mut Out, r: &mut Rng, v: &Val) {
         Err(_) => return,
     };
     for sched in schedules(r) {
-        let w = ChunkWriter { accepted: Vec::new(), schedule: sched.clone(), turn: 0, fail_at: None, flush_fails: false };
+        let w = ChunkWriter { accepted: Vec::new(), schedule: sched.clone(), turn: 0, fail_at: None, flush_fails: false, zero_at_fail: false };
         o.eval(&("w", &vs, &sched), !plain.is_empty());
         match guarded(|| postcard::to_io(v, w)) {
             Ok(Ok(w)) if w.accepted == plain => {}
@@ -95,7 +101,7 @@ fn check_writer(o: &mut Out, r: &mut Rng, v: &Val) {
     }
     o.case("toio", &[&vs, "-", "0"], &format!("ok {}", hex(&plain)));
     // failure at every byte offset
-    for k in 0..plain.len() {
+    for (k, zero) in (0..plain.len()).flat_map(|k| [(k, false), (k, true)]) {
         let all_s = schedules(r);
         let sched = r.pick(&all_s).clone();
         // keep a handle on what the writer accepted by writing into a shared buffer
@@ -111,23 +117,38 @@ fn check_writer(o: &mut Out, r: &mut Rng, v: &Val) {
                 self.0.flush()
             }
         }
-        let w = Tee(ChunkWriter { accepted: Vec::new(), schedule: sched.clone(), turn: 0, fail_at: Some(k), flush_fails: false }, shared.clone());
+        let w = Tee(ChunkWriter { accepted: Vec::new(), schedule: sched.clone(), turn: 0, fail_at: Some(k), flush_fails: false, zero_at_fail: zero }, shared.clone());
         let got = guarded(|| postcard::to_io(v, w).map(|_| ()));
-        o.eval(&("wf", &vs, k), true);
+        o.eval(&("wf", &vs, k, zero), true);
         match got {
             Ok(Err(postcard::Error::SerializeBufferFull)) => {}
-            other => o.fail("a writer that fails produces an error, never a panic", format!("{} fail_at {}", vs, k), format!("{:?}", other), "Err(SerializeBufferFull)".into()),
+            other => o.fail("a writer that fails produces an error, never a panic", format!("{} fail_at {} ({})", vs, k, if zero { "writer reports Ok(0)" } else { "writer reports Err" }), format!("{:?}", other), "Err(SerializeBufferFull)".into()),
         }
         let acc = shared.borrow();
         if acc.len() > k || acc[..] != plain[..acc.len()] {
             o.fail("a failing writer has received only a prefix of the encoding", format!("{} fail_at {}", vs, k), hex(&acc), hex(&plain[..k]));
         }
-        o.bump("writer:fail_injected");
-        if k % 4 == 0 {
+        o.bump(if zero { "writer:full_reported_as_zero" } else { "writer:fail_injected" });
+        if k % 4 == 0 && !zero {
             o.case("toio", &[&vs, &k.to_string(), "0"], "err:SerializeBufferFull");
         }
     }
-    let w = ChunkWriter { accepted: Vec::new(), schedule: vec![3], turn: 0, fail_at: None, flush_fails: true };
+    // the standard library's own bounded sinks, at every capacity
+    for cap in 0..=plain.len() + 1 {
+        let mut buf = vec![0xEEu8; cap];
+        let got = guarded(|| postcard::to_io(v, &mut buf[..]).map(|rest| rest.len()));
+        let mut buf2 = vec![0xEEu8; cap];
+        let got2 = guarded(|| postcard::to_io(v, std::io::Cursor::new(&mut buf2[..])).map(|c| c.position() as usize));
+        o.eval(&("wstd", &vs, cap), true);
+        let fits = cap >= plain.len();
+        let ok1 = match &got { Ok(Ok(rest)) => fits && *rest == cap - plain.len() && buf[..plain.len()] == plain[..], Ok(Err(postcard::Error::SerializeBufferFull)) => !fits, _ => false };
+        let ok2 = match &got2 { Ok(Ok(pos)) => fits && *pos == plain.len() && buf2[..plain.len()] == plain[..], Ok(Err(postcard::Error::SerializeBufferFull)) => !fits, _ => false };
+        if !ok1 || !ok2 {
+            o.fail("a bounded std::io sink succeeds exactly when the encoding fits", format!("{} capacity {} (encoding {} bytes)", vs, cap, plain.len()), format!("&mut [u8]: {:?}; Cursor: {:?}", got, got2), if fits { "Ok with the plain encoding".into() } else { "Err(SerializeBufferFull)".into() });
+        }
+        o.bump("writer:std_bounded_sink");
+    }
+    let w = ChunkWriter { accepted: Vec::new(), schedule: vec![3], turn: 0, fail_at: None, flush_fails: true, zero_at_fail: false };
     match guarded(|| postcard::to_io(v, w).map(|_| ())) {
         Ok(Err(postcard::Error::SerializeBufferFull)) => {}
         other => o.fail("a failing flush is an error", vs.clone(), format!("{:?}", other), "Err(SerializeBufferFull)".into()),
@@ -193,6 +214,19 @@ fn check_reader(o: &mut Out, r: &mut Rng, t: &Ty, v: &Val) {
         if scratch_len % 3 == 0 {
             o.case("fromio", &[&ts, &hex(&stream), "-", &scratch_len.to_string()], "err:DeserializeUnexpectedEnd");
         }
+    }
+    // stream ends (reader reports Ok(0)) at every offset of the message
+    for k in 0..plain.len() {
+        let mut scratch = vec![0xEEu8; need + 1];
+        let all_s = schedules(r);
+        let rd = ChunkReader { data: plain[..k].to_vec(), pos: 0, schedule: r.pick(&all_s).clone(), turn: 0, fail_at: None };
+        let got = guarded(|| with_ty(t, || postcard::from_io::<Dyn, _>((rd, &mut scratch)).map(|(d, _)| d.0)));
+        o.eval(&("re", &ts, &plain, k), true);
+        match &got {
+            Ok(Err(postcard::Error::DeserializeUnexpectedEnd)) => {}
+            other => o.fail("a stream that ends inside the message produces an error, never a panic", format!("{} bytes {}", ts, hex(&plain[..k])), format!("{:?}", other.as_ref().map(|r| r.as_ref().map(|v| v.to_string()))), "Err(DeserializeUnexpectedEnd)".into()),
+        }
+        o.bump("reader:stream_ends");
     }
     // reader failure injected at every offset of the message
     for k in 0..plain.len() {
